@@ -1,4 +1,5 @@
 """C14 - agent registry stays consistent under creation, deletion and reconfiguration."""
+import json
 from .. import tlc, gen, common, abm_replay
 
 TYPES = ["a", "b", "c"]
@@ -13,6 +14,48 @@ def consts(maxids):
 
 
 INVS = ["UniqueIds", "IdsBelowNext", "TypeMapExact", "CountsAgree", "FoldOK"]
+
+
+def random_trace(rng, length):
+    """drive a real Model with random registry operations; returns the event list (op, args, observed queries) or an
+    immediate failure when a query raised"""
+    from .. import abm_adapter as A
+    m = A.build(TYPES, 100, spawn=SPAWN, default_v=2)
+    events = []
+    for _ in range(length):
+        alive = [a.id for a in m.agents]
+        ops = ["Create", "Create", "Create", "Configure"]
+        if alive:
+            ops += ["Delete", "Delete", "SetState", "SetState", "Reset"]
+        op = rng.choice(ops)
+        if op == "Create":
+            ty = rng.choice(TYPES)
+            m.create_agent(ty, A.prop_v(2))
+            ev = {"op": "Create", "ty": ty, "v": 2}
+        elif op == "Delete":
+            pool = list(range(m.next_agent_id))
+            ids = set(rng.sample(pool, min(len(pool), rng.choice([1, 1, 2]))))
+            (m.delete_agent(next(iter(ids))) if len(ids) == 1 else m.delete_agents(list(ids)))
+            ev = {"op": "Delete", "ids": ids}
+        elif op == "Configure":
+            cfg = rng.choice([[["a", 1, 2], ["c", 1, 2]], [["b", 2, 2]]])
+            m.configure_agents([{"name": c[0], "count": c[1], "properties": A.prop_v(c[2])} for c in cfg])
+            ev = {"op": "Configure", "cfg": [tuple(c) for c in cfg]}
+        elif op == "Reset":
+            m.reset()
+            ev = {"op": "Reset"}
+        else:
+            i = rng.choice(alive)
+            st = "idle" if m.agent(i).state == "active" else "active"
+            m.agent(i).state = st
+            ev = {"op": "SetState", "id": i, "st": st}
+        q = A.queries(m, TYPES)
+        flat = json.dumps(q)
+        if "EXC:" in flat or "WRONG-ID" in flat:
+            return events, {"event": {k: (sorted(v) if isinstance(v, set) else v) for k, v in ev.items()}, "queries": q}
+        ev["q"] = q
+        events.append(ev)
+    return events, None
 
 
 def run(tier, replay_file=None):
@@ -39,7 +82,8 @@ def run(tier, replay_file=None):
     R.cov["bfs_histories"], R.cov["sim_histories"] = len(hs), len(hs2)
     R.cov["exhaustive"] = True
     n_ops = {}
-    for hist in hs + hs2:
+    import os
+    for hist in ([] if os.environ.get("VERIF_ONLY_TRACE") else hs + hs2):
         bad = abm_replay.replay(hist, TYPES, 100, 2, {"q"}, SPAWN)
         R.add("traces_validated_against_impl")
         for h in hist:
@@ -51,6 +95,39 @@ def run(tier, replay_file=None):
     R.cov["ops_replayed"] = n_ops
     R.sample([{k: v for k, v in h.items() if k != "q"} for h in (hs2[0] if hs2 else hs[0])][:12])
     R.sample(hs[len(hs) // 2][-1])
+    # 2b. code -> spec: random operation sequences on the real Model, validated by TLC against AbmTrace.tla
+    import random
+    rng = random.Random(common.seed() + 99)
+    traces = []
+    for _ in range(12 if quick else 200):
+        ev, failed = random_trace(rng, 40 if quick else 80)
+        if failed:
+            R.violation("a registry query failed or answered about another agent", failed)
+        traces.append(ev)
+    if traces and not R.violations:
+        c = dict(consts(100000), L='99')
+        c["Traces"] = tlc.tla(traces)
+        tv = tlc.run("AbmTrace", c, init="TraceInit", next="TraceNext", invariants=INVS, deadlock=True, workers=1, timeout=1800)
+        R.add("traces_validated_against_impl", len(traces))
+        R.cov["tlc_trace_validations"] = len(traces)
+        R.cov["trace_events"] = sum(len(t) for t in traces)
+        if tv.violation:
+            import re
+            tids, ls = re.findall(r"/\\ tid = (\d+)", tv.trace), re.findall(r"/\\ l = (\d+)", tv.trace)
+            t, li = (int(tids[-1]) if tids else 1), (int(ls[-1]) if ls else 1)
+            evs = traces[t - 1]
+            R.violation("recorded registry trace is not a behaviour of Abm (%s)" % tv.violation,
+                        {"unexplained_event_index": li,
+                         "unexplained_event": ({k: (sorted(v) if isinstance(v, set) else v) for k, v in evs[li - 1].items()} if li <= len(evs) else None),
+                         "preceding_ops": [{k: (sorted(v) if isinstance(v, set) else v) for k, v in e.items() if k != "q"} for e in evs[max(0, li - 6):li]]})
+        # negative control for the trace specification: one corrupted observation must be rejected
+        import copy as _copy
+        evil = _copy.deepcopy(traces[0][:10])
+        evil[-1]["q"]["cnt"]["a"] += 1
+        c2 = dict(consts(100000), L='99'); c2["Traces"] = tlc.tla([evil])
+        tv2 = tlc.run("AbmTrace", c2, init="TraceInit", next="TraceNext", invariants=INVS, deadlock=True, workers=1, timeout=600)
+        if not tv2.violation:
+            raise common.Machinery("negative control: corrupted registry trace accepted by AbmTrace")
     # 3. negative control: a corrupted expectation must be rejected by the comparison
     import copy
     ctl = copy.deepcopy(hs[0])
